@@ -24,6 +24,7 @@ EFFECTS = [
     ('random_choices', 'random', '[1, 2, 3].random_choices(2)', 'Sequence<int>', 'r'),
     ('random_choices-w', 'random', '[1, 2, 3].random_choices(2, [1.0, 2.0, 1.0])', 'Sequence<int>', 'r'),
     ('regex', 'regex', 'regex("a+")', 'Regex', None),
+    ('regex-malformed', 'regex', 'regex("[0-9](")', 'Regex', None),
     ('sleep', 'sleep', 'sleep(seconds(0.0))', '()', None),
     ('sleep-value', 'sleep', 'sleep(seconds(0.0), 5)', 'int', None),
 ]
@@ -38,6 +39,19 @@ PATHS = [
     ('reduce-callback', True, '[1, 2].reduce((a: int, b: int)->{ let e = E; a })'),
     ('default-parameter', True, 'let f = (x: T ?= E)->{0}; f()'),
     ('nested-fn', True, 'fn outer()->T{ fn inner()->T{E} inner() } outer()'),
+    ('gen-take_while', True, '[1, 2].to_generator().take_while((x: int)->{ let e = E; true }).to_array()'),
+    ('gen-skip_until', True, '[1, 2].to_generator().skip_until((x: int)->{ let e = E; true }).to_array()'),
+    ('gen-map', True, '[1, 2].to_generator().map((x: int)->{ let e = E; x }).to_array()'),
+    ('gen-aggregate', True, '[1, 2].to_generator().aggregate((a: int, b: int)->{ let e = E; a }).to_array()'),
+    ('gen-group', True, '[1, 2].to_generator().group((a: int, b: int)->{ let e = E; true }).to_array()'),
+    ('gen-successors', True, 'successors_until(1, (x: int)->{ let e = E; if(x < 3, some(x + 1), none()) }).to_array()'),
+    ('gen-nth', True, '[1, 2].to_generator().nth(0, (x: int)->{ let e = E; true })'),
+    ('seq-nth', True, '[1, 2].nth(0, (x: int)->{ let e = E; true })'),
+    ('seq-take_while', True, '[1, 2].take_while((x: int)->{ let e = E; true }).len()'),
+    ('sort-comparator', True, '[2, 1].sort((a: int, b: int)->{ let e = E; cmp(a, b) })'),
+    ('mapping-hash', True, 'mapping((k: int)->{ let e = E; k }, (a: int, b: int)->{ a == b }).set(1, 1).len()'),
+    ('set-eq', True, 'set((k: int)->{ 0 }, (a: int, b: int)->{ let e = E; a == b }).add(1).add(2).len()'),
+    ('in-catcher', True, 'if_error((()->{ let e = E; 1 })(), 0)'),
     ('lazy-never-forced', False, 'let s = [1, 2].map((x: int)->{E}); 7'),
     ('unselected-branch', False, 'if(false, (()->{ let e = E; 1 })(), 7)'),
     ('uncalled-function', False, 'let f = ()->{E}; 7'),
@@ -103,7 +117,7 @@ def _run_cfg(cfg):
                 why = 'permitted-effect-did-not-happen'
             elif dbl == 'r' and d['rng'] == 0:
                 why = 'permitted-effect-did-not-happen'
-            elif en == 'display' and o.out != '41\n' * (2 if pn == 'map-callback-forced' else 1) and pn != 'map-callback-forced':
+            elif en == 'display' and pn in ('direct', 'in-function', 'returned-closure', 'nested-fn') and o.out != '41\n':
                 why = 'wrong-output'
             elif en == 'display-prefix' and pn == 'direct' and o.out != 'p:41\n':
                 why = 'wrong-output'
